@@ -153,7 +153,9 @@ class BuiltinConnector(BaseConnector):
         Note:
             There are faster algorithms, but this is fine for now.
         """
-        return pfaffian(matrix)
+        # NOTE: The native Parlett-Reid kernel pivots and eliminates in the buffer it is
+        # given (shared with a C-contiguous NumPy array), so it is handed a private copy.
+        return pfaffian(self.fallback_np.array(matrix))
 
     def real_logm(self, matrix):
         """Calculates the real logarithm of a matrix.
